@@ -37,6 +37,12 @@ pub trait Backend {
     fn yield_holding_lock(&self) -> bool {
         false
     }
+    /// Called the first time a tokio join handle is polled; `true` = that poll answers
+    /// `Pending` and wakes itself, whatever the state of the task - what tokio does when the
+    /// polling task has used up its cooperative budget (128 operations per scheduling turn).
+    fn coop_budget_exhausted(&self) -> bool {
+        false
+    }
 }
 
 thread_local! {
@@ -361,8 +367,8 @@ pub mod tokio_shim {
         F::Output: Send + 'static,
     {
         match backend() {
-            Some(b) => task::JoinHandle(task::Inner::Virtual(spawn_on(&b, future).1), false),
-            None => task::JoinHandle(task::Inner::Real(::tokio::spawn(future)), false),
+            Some(b) => task::JoinHandle(task::Inner::Virtual(spawn_on(&b, future).1), false, false),
+            None => task::JoinHandle(task::Inner::Real(::tokio::spawn(future)), false, false),
         }
     }
 
@@ -375,8 +381,10 @@ pub mod tokio_shim {
         }
 
         /// Dropping it detaches the task; awaiting yields `Err` if the task panicked or was
-        /// cancelled. Like tokio's, it panics when it is polled again after it has completed.
-        pub struct JoinHandle<T>(pub(super) Inner<T>, pub(super) bool);
+        /// cancelled. Like tokio's, it panics when it is polled again after it has completed, and
+        /// its poll takes part in the cooperative budget (see `Backend::coop_budget_exhausted`;
+        /// the third field: the backend has been asked).
+        pub struct JoinHandle<T>(pub(super) Inner<T>, pub(super) bool, pub(super) bool);
 
         #[derive(Debug)]
         pub enum JoinError {
@@ -393,6 +401,13 @@ pub mod tokio_shim {
                     Inner::Real(h) => Pin::new(h).poll(cx).map_err(JoinError::Real),
                     Inner::Virtual(rx) => {
                         assert!(!this.1, "JoinHandle polled after completion");
+                        if !this.2 {
+                            this.2 = true;
+                            if backend().is_some_and(|b| b.coop_budget_exhausted()) {
+                                cx.waker().wake_by_ref();
+                                return Poll::Pending;
+                            }
+                        }
                         let r = Pin::new(rx).poll(cx).map(|r| match r {
                             Ok(Ok(t)) => Ok(t),
                             Ok(Err(())) => Err(JoinError::Panicked),
